@@ -2,4 +2,27 @@
 
 package field
 
-func init() { verifUsesAsm = true }
+// Only in the build that links field_u64_amd64.s: the assembly routines against the IR programs asm2ir translated from
+// that very file (group FieldAsm; exact limb comparison).
+func init() {
+	verifUsesAsm = true
+	verifT0["FieldAsm.feMul"] = func(in []uint64) []uint64 {
+		var o, a, b Element
+		p := verifFill(&a, in)
+		verifFill(&b, in[p:])
+		feMul(&o, &a, &b)
+		return verifRead(&o)
+	}
+	verifT0["FieldAsm.fePow2k1"] = func(in []uint64) []uint64 {
+		var o, a Element
+		verifFill(&a, in)
+		fePow2k(&o, &a, 1)
+		return verifRead(&o)
+	}
+	verifT0["FieldAsm.fePow2k2"] = func(in []uint64) []uint64 {
+		var o, a Element
+		verifFill(&a, in)
+		fePow2k(&o, &a, 2)
+		return verifRead(&o)
+	}
+}
